@@ -334,7 +334,10 @@ func (s *spanScreen) writeString(text string, width int, merge bool, mode TextRe
 		width = 1
 	}
 	if width > s.size.X {
-		width = s.size.X
+		// A character wider than the whole screen cannot be shown; storing it
+		// with a clamped width would make the row text wider than the row.
+		text = string(utf8.RuneError)
+		width = 1
 	}
 	if s.cursorPos.X+width > s.size.X {
 		if s.autoWrap {
